@@ -60,7 +60,7 @@ def check_subset(case):
     try:
         ql = tuple(qubits) if case.get("zero_seed", 0) % 3 == 0 else list(qubits)      # sequence type must not matter
         circs = L.tomo.full_state_tomography_circuits(prep, name, ql)
-        counts = [tomo.exact_counts([(1.0, dense.run(tomo.measurement_ops(qc), N))], N, rng) for qc in circs]
+        counts = [tomo.rescale_counts(tomo.exact_counts([(1.0, dense.run(tomo.measurement_ops(qc), N))], N, rng), case.get("zero_seed", 0) + i) for i, qc in enumerate(circs)]
         fitter = L.tomo.FullStateTomographyFitter(tomo.FakeResult(counts), circs)
         ev_red, p1 = tomo.convert_expectations(fitter.expectation_values(full_hilbert_space=False))
         ev_full, p2 = tomo.convert_expectations(fitter.expectation_values(full_hilbert_space=True))
